@@ -252,6 +252,17 @@ def retry_info_correspondence(env: Env, out: Outcome, n: int) -> None:
             got_failed = "_" if ri.last_failed_at is None else q(ri.last_failed_at.timestamp())
             if ri.last_failed_at is not None and ri.last_failed_at.tzinfo != datetime.timezone.utc:
                 out.violations.append(Violation("C05/retry_info_failed_at_not_utc", f"retry_info().last_failed_at = {ri.last_failed_at!r}", {"case": [num, first, exc, failed, now]}))
+            # (S) what RetryInfo documents, stated on the implementation alone: the record's number, exception and failure time;
+            # elapsed_seconds is 0.0 on the first attempt and the seconds since the first attempt began on a retry
+            case = {"retry_number": num, "first_attempt_at": first, "last_exception": exc, "last_failed_at": failed, "now": now}
+            if ri.retry_number != num or got_exc != ("_" if exc is None else str(exc)) or got_failed != ("_" if failed is None else q(failed)):
+                out.violations.append(Violation("C05/retry_info_record", f"retry_info() of the record {case} reports retry_number={ri.retry_number}, "
+                                                f"last_exception={ri.last_exception!r}, last_failed_at={ri.last_failed_at!r}", {"case": case}))
+            if num == 0 and ri.elapsed_seconds != 0.0:
+                out.violations.append(Violation("C05/retry_info_elapsed:first_attempt", f"retry_info() on the first attempt ({case}) reports elapsed_seconds={ri.elapsed_seconds}", {"case": case}))
+            if num >= 1 and first > 0 and now >= first and ri.elapsed_seconds != now - first:
+                out.violations.append(Violation("C05/retry_info_elapsed:retry", f"retry_info() on retry {num} ({case}) reports elapsed_seconds={ri.elapsed_seconds}, "
+                                                f"{now - first} seconds have passed since the first attempt began", {"case": case}))
             ops.append(f"rinfo {num} {q(first)} {'_' if exc is None else exc} {'_' if failed is None else q(failed)} {q(now)}")
             exp.append(f"{ri.retry_number} {q(ri.elapsed_seconds)} {got_exc} {got_failed}")
             out.evaluations += 1
